@@ -1,6 +1,6 @@
 // Command c01 traces the ordered symbol tables (BST, AVL, Red-Black) for properties C01 and C15.
 //
-//	header:  <BST|AVL|RB> <asc|desc|diff|half>
+//	header:  <BST|AVL|RB> <asc|desc|diff|rdiff|diff3|half>
 //	mutators: P k v -> -      D k -> v|none      Dm / DM -> k:v|none      DA -> -
 //	queries:  Sz E H G k  Mn Mx  F k  C k  Sel i  R k  Rg lo hi  RS lo hi  All  T o  TS o j
 //	          Any p  Allm p  Fm p  Sm p  Pm p  Eq <hist>  EqO <impl>
@@ -33,8 +33,12 @@ func cmpOf(name string) generic.CompareFunc[int] {
 	switch name {
 	case "desc":
 		return generic.NewReverseCompareFunc[int]()
-	case "diff":
+	case "diff": // magnitudes other than 1: the contract is negative / zero / positive
 		return func(a, b int) int { return a - b }
+	case "rdiff":
+		return func(a, b int) int { return b - a }
+	case "diff3":
+		return func(a, b int) int { return 3 * (a - b) }
 	case "half": // a total preorder: keys with the same floor(k/2) are the same key
 		return func(a, b int) int {
 			x, y := a>>1, b>>1
@@ -285,7 +289,7 @@ func exec(t table, impl, cmp, op string) (res string) {
 
 var (
 	hung        int
-	cpuDeadline = 15 * time.Second // CPU time the process may burn inside one case before it is declared hung
+	cpuDeadline = 10 * time.Second // CPU time the process may burn inside one case before it is declared hung
 	wallCap     = 15 * time.Minute // absolute cap (a goroutine blocked without burning CPU)
 )
 
@@ -300,7 +304,9 @@ func cpuTime() time.Duration {
 	return time.Duration(ru.Utime.Nano() + ru.Stime.Nano())
 }
 
-func runCase(w *tr.W, impl, cmp string, ops []string) {
+// tryRun executes ops on a fresh table under the watchdog. It returns the results obtained and
+// whether the operation after them hung.
+func tryRun(impl, cmp string, ops []string) ([]string, bool) {
 	var mu sync.Mutex
 	var res []string
 	done := make(chan struct{})
@@ -341,11 +347,20 @@ func runCase(w *tr.W, impl, cmp string, ops []string) {
 	mu.Lock()
 	got := append([]string(nil), res...)
 	mu.Unlock()
+	return got, timedOut && len(got) < len(ops)
+}
+
+func runCase(w *tr.W, impl, cmp string, ops []string) {
+	got, hungNow := tryRun(impl, cmp, ops)
+	writeCase(w, impl, cmp, ops, got, hungNow)
+}
+
+func writeCase(w *tr.W, impl, cmp string, ops, got []string, hungNow bool) {
 	w.Begin("%s %s", impl, cmp)
 	for i, r := range got {
 		w.Op(ops[i], r)
 	}
-	if timedOut && len(got) < len(ops) {
+	if hungNow {
 		w.Op(ops[len(got)], "HANG")
 		hung++
 	}
@@ -393,6 +408,21 @@ func fullBattery(keys []int, probes []int, sz int, sib string) []string {
 	return ops
 }
 
+// parsePairs parses a list result k:v,k:v,... ([] when empty).
+func parsePairs(l string) (keys, vals []int) {
+	if l == "[]" || l == "" {
+		return nil, nil
+	}
+	for _, e := range strings.Split(l, ",") {
+		p := strings.Split(e, ":")
+		k, _ := strconv.Atoi(p[0])
+		v, _ := strconv.Atoi(p[1])
+		keys = append(keys, k)
+		vals = append(vals, v)
+	}
+	return keys, vals
+}
+
 func histOf(muts []string) string {
 	if len(muts) == 0 {
 		return "-"
@@ -422,22 +452,22 @@ func exhaustive(w *tr.W, cmps []string, universe, probes []int, maxLen int, full
 			var rec func(prefix []string)
 			rec = func(prefix []string) {
 				ops := append([]string(nil), prefix...)
-				t := mk(impl, cmp)
-				for _, m := range prefix {
-					exec(t, impl, cmp, m)
+				// the state reached by the prefix, computed under the watchdog
+				probe := append(append([]string(nil), prefix...), "K", "All")
+				got, hungNow := tryRun(impl, cmp, probe)
+				if hungNow || len(got) < len(probe) {
+					// a mutator hung or panicked: report the case and do not extend this history
+					writeCase(w, impl, cmp, probe, got, hungNow)
+					return
 				}
-				st := dump(t)
+				st := got[len(prefix)]
 				if full && !seen[st] {
 					seen[st] = true
-					var keys []int
-					for k := range t.All() {
-						keys = append(keys, k)
-					}
+					keys, vals := parsePairs(got[len(prefix)+1])
 					// the sibling is rebuilt by re-putting the final content in reverse order
 					var sib []string
 					for i := len(keys) - 1; i >= 0; i-- {
-						v, _ := t.Get(keys[i])
-						sib = append(sib, fmt.Sprintf("P%d:%d", keys[i], v))
+						sib = append(sib, fmt.Sprintf("P%d:%d", keys[i], vals[i]))
 					}
 					s := "-"
 					if len(sib) > 0 {
@@ -693,6 +723,7 @@ func main() {
 	w := tr.NewW()
 	defer w.Flush()
 	if *replay != "" {
+		cpuDeadline = 4 * time.Second // single small cases: a spinning operation is evident quickly
 		cs, err := tr.ReadCases(*replay)
 		if err != nil {
 			fmt.Fprintln(os.Stderr, err)
@@ -709,39 +740,40 @@ func main() {
 	}
 	thorough := *tier == "thorough"
 	ad := []string{"asc", "desc"}
-	all4 := []string{"asc", "desc", "diff", "half"}
+	mag := []string{"diff3", "rdiff"} // never return +-1 on distinct even keys
+	all := []string{"asc", "desc", "diff", "rdiff", "diff3", "half"}
 	switch *mode {
 	case "exhaustive":
 		probes := []int{1, 2, 3, 4, 5, 8, 9}
 		if thorough {
-			exhaustive(w, ad, []int{2, 4, 6, 8}, probes, 5, *full)
-			exhaustive(w, ad, []int{2, 4, 6}, probes, 6, *full)
+			exhaustive(w, append(ad, mag...), []int{2, 4, 6, 8}, probes, 5, *full)
+			exhaustive(w, mag, []int{2, 4, 6}, probes, 6, *full)
 			exhaustive(w, []string{"half", "diff"}, []int{2, 3, 6, 7}, probes, 4, *full)
 		} else {
-			exhaustive(w, ad, []int{2, 4, 6, 8}, probes, 4, *full)
-			exhaustive(w, ad, []int{2, 4, 6}, probes, 5, *full)
-			exhaustive(w, []string{"half", "diff"}, []int{2, 3, 6}, probes, 3, *full)
+			exhaustive(w, append(ad, "diff3"), []int{2, 4, 6, 8}, probes, 4, *full)
+			exhaustive(w, mag, []int{2, 4, 6}, probes, 5, *full)
+			exhaustive(w, []string{"half"}, []int{2, 3, 6}, probes, 3, *full)
 		}
 	case "random":
 		r := rng.FromEnv(101)
 		if thorough {
-			random(w, r, 6000, 64, 400, all4, true)
+			random(w, r, 6000, 64, 400, all, true)
 		} else {
-			random(w, r, 500, 64, 400, all4, true)
+			random(w, r, 500, 64, 400, all, true)
 		}
 	case "churn": // mutators and K only (C15)
 		r := rng.FromEnv(115)
 		if thorough {
-			random(w, r, 5000, 64, 400, all4, false)
+			random(w, r, 5000, 64, 400, all, false)
 		} else {
-			random(w, r, 400, 64, 400, all4, false)
+			random(w, r, 400, 64, 400, all, false)
 		}
 	case "shapes":
 		r := rng.FromEnv(15)
 		if thorough {
-			shapes(w, r, []int{1, 2, 3, 5, 8, 13, 21, 34, 64, 100, 257, 1000, 3000}, ad)
+			shapes(w, r, []int{1, 2, 3, 5, 8, 13, 21, 34, 64, 100, 257, 1000, 3000}, append(ad, mag...))
 		} else {
-			shapes(w, r, []int{1, 2, 3, 5, 8, 13, 33, 64, 160}, ad)
+			shapes(w, r, []int{1, 2, 3, 5, 8, 13, 33, 64, 160}, append(ad, mag...))
 		}
 	}
 }
